@@ -277,6 +277,17 @@ def directed(ctx):
             for vals in ([100, 200, 300, 250, 150], [181, 182, 183, 190]):
                 for dt in (numpy.int64, numpy.int16, numpy.uint16, numpy.uint8 if max(vals) < 256 else numpy.int32):
                     cases.append((Case(cmd, params, [numpy.ma.array(numpy.array(vals, dtype=dt))]), "narrow"))
+    # threshold spans of every size from 1 to 130 (and a few thousand), explicit and by default (the data minimum / maximum), in both directions: the cells
+    # holding the thresholds map to exactly +1 / -1, the cell half-way to exactly 0 (the exactness oracle of run_stream decides: whole numbers need no rounding)
+    spans = list(range(1, 131)) + [rng.randrange(131, 5000) for _ in range(10)]
+    rng.shuffle(spans)
+    for i, w in enumerate(spans):
+        lo = rng.choice([0, 1, -3, 7, -w])
+        cells = [float(lo), float(lo + w), lo + w / 2.0, float(lo + w), float(lo)] + ([float(lo + rng.randrange(w + 1))] if i % 2 else [])
+        arr = numpy.ma.array(numpy.array(cells), mask=[False] * len(cells))
+        p = rng.choice([{"TrueThreshold": lo + w, "FalseThreshold": lo}, {"TrueThreshold": lo, "FalseThreshold": lo + w},
+                        {"TrueThreshold": float(lo + w), "FalseThreshold": float(lo)}, {}, {"Direction": "HighToLow"}, {"Direction": "LowToHigh"}])
+        cases.append((Case("CvtToFuzzy", p, [arr]), "span"))
     for cmd, key in (("NormalizeMeanToMid", "NormalValues"), ("CvtToFuzzyMeanToMid", "FuzzyValues")):
         vals5 = [0, 0.25, 0.5, 0.75, 1] if key == "NormalValues" else [-1, -0.5, 0, 0.5, 1]
         for vals in ([0.0, 0.0, 2.0, 3.0, 5.0, 7.0], [0.0, -1.0, -4.0, -2.0, 0.0, -7.0], [0.0, 1.5, 0.0, 4.0, 2.0], [3.0, 0.0, -2.0, 5.0, 0.0]):
